@@ -112,6 +112,8 @@ class FitHistMachine(Machine):
         spec["as_container"] = sw.random() < 0.3
         names = fitlib.par_names(spec)
         cost = spec["cost"]
+        if t != "unbinned" and (cost.startswith("chi2") or cost.startswith("gauss")) and cost != "chi2_no_errors" and st("nodet").random() < 0.12:
+            spec["nodet"] = True  # documented option add_determinant_cost=False (cost function handed over as an object)
         n_ops = sw.randint(4, 16 if tier == "quick" else 30)
         read_density = sw.choice([0.3, 1.0, 2.0, 3.0])
         allow_model_rel = True
@@ -194,8 +196,12 @@ class FitHistMachine(Machine):
             elif k == "set_data" and not has_model_src:
                 ops.append(["set_data", self._new_data(rng, spec)])
                 nsrc_reset = True  # sources of the old container are gone; indices restart (executor mirrors this)
-                nsrc = 0
-                if want_errors:
+                nsrc = len(ops[-1][1].get("sources") or [])
+                if nsrc:
+                    # the container brought its own sources: observe before anything else touches the uncertainties
+                    ops.append(["read", "cost_function_value", 0.0])
+                    add_reads(2)
+                elif want_errors:
                     op = fitlib.gen_source(rng, spec, nsrc, force={"kind": "simple", "axis": "y" if t == "xy" else None, "ref": "data", "rel": False})
                     op[1]["corr"] = 0.0
                     op[1]["name"] = "r%d" % len(ops)
@@ -232,12 +238,30 @@ class FitHistMachine(Machine):
                 xs = sorted(set([float(v + rng.choice([0.0, 1.0, 2.0])) if poisson else round(v + rng.choice([0.0, 0.25, -0.25, 0.4]), 3) for v in xs]))
                 while len(xs) < len(spec["x"]):
                     xs.append(xs[-1] + 1.0)
-            return {"x": xs, "y": [round(v + rng.choice([-0.2, 0.1, 0.3]) if not spec["cost"] in fitlib.POISSON_LIKE else v + rng.choice([0, 1, 2]), 3) for v in spec["y"]]}
+            out = {"x": xs, "y": [round(v + rng.choice([-0.2, 0.1, 0.3]) if not spec["cost"] in fitlib.POISSON_LIKE else v + rng.choice([0, 1, 2]), 3) for v in spec["y"]]}
+            return self._with_sources(rng, spec, out)
         if t == "indexed":
-            return {"d": [round(v + rng.choice([-0.2, 0.1, 0.3]) if not spec["cost"] in fitlib.POISSON_LIKE else v + rng.choice([0, 1, 2]), 3) for v in spec["d"]]}
+            out = {"d": [round(v + rng.choice([-0.2, 0.1, 0.3]) if not spec["cost"] in fitlib.POISSON_LIKE else v + rng.choice([0, 1, 2]), 3) for v in spec["d"]]}
+            return self._with_sources(rng, spec, out)
         if t == "hist":
             return {"entries": [round(v + rng.choice([-0.1, 0.0, 0.1]), 4) for v in spec["entries"]][: max(5, len(spec["entries"]) - 3)]}
         return {"d": [round(v + rng.choice([-0.1, 0.0, 0.1]), 4) for v in spec["d"]]}
+
+    def _with_sources(self, rng, spec, out):
+        """The replacement may be a container that brings its own (possibly correlated) uncertainty sources."""
+        if spec["cost"] in fitlib.POISSON_LIKE or spec["cost"] == "chi2_no_errors" or rng.random() < 0.5:
+            return out
+        srcs = []
+        base = fitlib.gen_source(rng, spec, 0, allow_model=False, force={"kind": "simple", "axis": "y" if spec["type"] == "xy" else None, "ref": "data", "rel": False})
+        base[1]["corr"] = rng.choice([0.0, 0.3, 0.6])
+        base[1]["name"] = "n0"
+        srcs.append(base)
+        if rng.random() < 0.4:
+            op = fitlib.gen_source(rng, spec, 1, allow_model=False, force={"ref": "data"})
+            op[1]["name"] = "n1"
+            srcs.append(op)
+        out["sources"] = srcs
+        return out
 
     # ------------------------------------------------------------------ shrinking / fingerprints
     def simplify(self, op):
@@ -318,14 +342,14 @@ class FitHistMachine(Machine):
             if t == "xy":
                 if len(a["x"]) != len(a["y"]) or len(a["x"]) != len(sim.ref.d):
                     raise NotApplicable("size")
-                fit.data = [list(a["x"]), list(a["y"])]
+                newdata = [list(a["x"]), list(a["y"])]
                 sim.ref.d = np.array(a["y"], dtype=float)
                 xs = np.array(a["x"], dtype=float)
                 sim.ref.x = xs
                 mk = sim.spec["model"]
                 sim.ref.model = lambda p, xs=xs, mk=mk: np.asarray(fitlib._pure_xy(mk)(xs, *p), dtype=float)
             elif t == "indexed":
-                fit.data = list(a["d"])
+                newdata = list(a["d"])
                 sim.ref.d = np.array(a["d"], dtype=float)
             elif t == "hist":
                 K = fitlib.kf()
@@ -343,10 +367,17 @@ class FitHistMachine(Machine):
                 sim.ref.d = s
                 mk = sim.spec["model"]
                 sim.ref.model = lambda p, s=s, mk=mk: np.asarray(fitlib._pure_pdf(mk)(s, *p), dtype=float)
-            # the new container carries no sources; kafe2 builds a new parametric model as well
+            # the new container carries only its own sources; kafe2 builds a new parametric model as well
             sim.ref.sources = []
             sim.names = []
             sim.src_where = []
+            if t in ("xy", "indexed"):
+                if a.get("sources"):
+                    K = fitlib.kf()
+                    cont = K.XYContainer(newdata[0], newdata[1]) if t == "xy" else K.IndexedContainer(newdata)
+                    sim._pre(cont, a["sources"])
+                    newdata = cont
+                fit.data = newdata
             return
         if k == "set_par_errors":
             if len(op[1]) != sim.ref.n_par:
@@ -462,8 +493,9 @@ class FitHistMachine(Machine):
                 name = obs_names[int(op[2] * len(obs_names)) % len(obs_names)]
             if name not in obs_names and name not in ("result_dict", "report"):
                 continue
-            if name == "asymmetric_parameter_errors" and main.spec["minimizer"] != "iminuit":
-                continue  # generic profile root finding: seconds per call; exercised by M-QUERY in the thorough tier
+            if name == "asymmetric_parameter_errors" and main.spec["minimizer"] != "iminuit" and (
+                    main.limited or (main.ref.n_par - len(main.ref.fixed)) < 2 or main.spec["dea"] == "iterative"):
+                continue  # generic profile root finding with nothing left to vary / with limits: tens of seconds per call (M-QUERY, thorough tier)
             pcur = [float(v) for v in main.fit.parameter_values]
             needs_err = any(h in name for h in ERR_OBS_HINT) or name in ("result_dict", "report")
             if needs_err and main.domain_ok(pcur):
